@@ -7,7 +7,7 @@ request:  run <env> <loaded> <importable> <observed slots> <runs>
   loaded      `m;…`
   importable  `m:a=bind,a=bind;…`  bind ::= Sc | Sw | O<k> | F | U
   slots       `m.a;…`
-  runs        `extras|exit|nested;…`   extras ::= `m.a,m.a` | `e`; exit ::= n | r; nested ::= `-` | extras
+  runs        `extras|exit|nested;…`   extras ::= `m.a,m.a` | `e`; exit ::= n | r | b | g; nested ::= `-` | extras
 reply:    impl=<run>;…  spec=<run>;…   run ::= outcome|inside|after|nested-outcome|nested-unchanged
   an observation is one code per observed slot, `,`-separated: Rc Rw O F U Mc Mw N(module not loaded) X(no attribute)
 -/
@@ -58,7 +58,8 @@ def parseRun (s : String) : Option Run :=
   match s.splitOn "|" with
   | [e, x, n] => do
     let ex ← parseSlots e
-    let xx ← (if x == "n" then some Exit.normal else if x == "r" then some Exit.raises else none)
+    let xx ← (if x == "n" then some Exit.normal else if x == "r" then some Exit.raises else if x == "b" then some Exit.raisesBase
+              else if x == "g" then some Exit.generatorClosed else none)
     let nn ← (if n == "-" then some none else (parseSlots n).map some)
     some ⟨ex, xx, nn⟩
   | _ => none
@@ -134,7 +135,7 @@ def specRun (w : World) (implAfter : World) (slots : List Slot) (r : Run) : RunO
   let w' := importLike w implAfter
   if !guardOk w then ⟨"refused", "-", obs w' slots, "-", "-"⟩
   else if targets.all (targetValid w) then
-    ⟨(match r.exit with | .normal => "completed" | .raises => "bodyRaised"),
+    ⟨(match r.exit with | .normal => "completed" | _ => "bodyRaised"),
      ",".intercalate (slots.map (specInsideSlot w' targets)), obs w' slots,
      (match r.nested with | some _ => "refused" | none => "-"), (match r.nested with | some _ => "1" | none => "-")⟩
   else ⟨"setupFailed", "-", obs w' slots, "-", "-"⟩
